@@ -18,6 +18,39 @@ pub fn case_new(ctx: &mut Ctx, secs: &str) {
     ctx.emit("c16n", &[secs], &obs);
 }
 
+/// The three places where the library renders an instant (`secs` + `nanos` after the epoch): `SystemTime::iso8601_utc`,
+/// a cookie's `Expires` attribute, and the `time` member of a log line.
+pub fn case_funnels(ctx: &mut Ctx, secs: &str, nanos: &str) {
+    let s: u64 = secs.parse().unwrap();
+    let n: u32 = nanos.parse().unwrap();
+    let obs = guard(move || {
+        let t = UNIX_EPOCH + Duration::new(s, n);
+        let iso = t.iso8601_utc();
+        let cookie = servlin::Cookie::new("k", servlin::AsciiString::try_from("v").unwrap()).with_expires(t).to_string();
+        let expires = cookie.split("; ").find_map(|a| a.strip_prefix("Expires=")).unwrap_or("-").to_string();
+        // the log line of an event created at that instant, through the process's captured logger
+        static LOGGER: std::sync::OnceLock<std::sync::Mutex<std::sync::mpsc::Receiver<servlin::log::internal::LogEvent>>> = std::sync::OnceLock::new();
+        let rx = LOGGER.get_or_init(|| {
+            let (tx, rx) = std::sync::mpsc::sync_channel(16);
+            std::mem::forget(servlin::log::set_global_logger(tx).expect("logger"));
+            std::sync::Mutex::new(rx)
+        });
+        let rx = rx.lock().unwrap_or_else(std::sync::PoisonError::into_inner);
+        // `time_ns` is a u64 of nanoseconds: the library documents a panic for instants from the year 2554 on (`epoch_ns`);
+        // the log-line funnel is exercised below that
+        let logged = if (s as u128) * 1_000_000_000 + (n as u128) > u64::MAX as u128 { "-".to_string() } else {
+            let _ = servlin::log::internal::log(t, servlin::log::Level::Info, ());
+            let line = match rx.recv_timeout(Duration::from_secs(2)) {
+                Ok(ev) => { let mut v = Vec::new(); let _ = ev.write_jsonl(&mut v); String::from_utf8_lossy(&v).to_string() }
+                Err(_) => String::new(),
+            };
+            line.split("\"time\":\"").nth(1).and_then(|r| r.split('"').next()).unwrap_or("?").to_string()
+        };
+        format!("{iso} {expires} {logged}")
+    });
+    ctx.emit("c16f", &[secs, nanos], &obs);
+}
+
 pub fn case_add(ctx: &mut Ctx, dt: &str, dur: &str) {
     let f: Vec<i64> = dt.split(' ').map(|x| x.parse().unwrap()).collect();
     let d: u64 = dur.parse().unwrap();
@@ -94,6 +127,21 @@ pub fn run(ctx: &mut Ctx) {
     }
     for s in [253_402_300_799u64, 253_402_300_800, 300_000_000_000, 1 << 40] {
         emit_new(ctx, s);
+    }
+    // (6) the rendering funnels with sub-second parts (the fraction never moves an instant into the next second) and at the
+    //     end of the representable range
+    let mut idx3 = 0u64;
+    let nanos: [u32; 7] = [0, 1, 500_000_000, 999_999_000, 999_999_900, 999_999_999, 123_456_789];
+    let mut instants: Vec<u64> = vec![0, 1, 59, 86399, 86400, 951_782_399, 951_782_400, 1_735_689_599, 1_735_689_600, 4_102_444_799, 13_574_563_199,
+        253_402_214_399, 253_402_214_400, 253_402_257_600, 253_402_300_798, 253_402_300_799];
+    for _ in 0..(if ctx.thorough() { 20_000 } else { 1_500 }) { instants.push(rng.below(253_402_300_800)); }
+    for (i, s) in instants.iter().enumerate() {
+        for (j, n) in nanos.iter().enumerate() {
+            if i < 16 || (i + j) % 7 == 0 {
+                idx3 += 1;
+                if ctx.mine(idx3) { case_funnels(ctx, &s.to_string(), &n.to_string()); }
+            }
+        }
     }
     // (5) additions: every month start 1970..2405 (and day 28 / last day) x durations
     let durs: [u64; 9] = [0, 1, day, 365 * day, 366 * day, 367 * day, 1461 * day, 36524 * day, 146_097 * day];
